@@ -51,6 +51,11 @@ class Mon:
         v = {"key": key, "msg": str(msg)[:600], "count": 1}
         self._vkeys[key] = v
         self.violations.append(v)
+        # persist at once: the run may hang or be killed afterwards
+        try:
+            self.flush()
+        except Exception:  # pragma: no cover
+            pass
 
     def count(self, name, n=1):
         self.counters[name] = self.counters.get(name, 0) + n
@@ -1584,7 +1589,10 @@ def install_pool(mon):
         check_rows(s, name)
         check_indices(self, name)
         if s.size != N:
-            V(f"pool-size!=requested:{name}", f"{s.size} vs requested {N}")
+            how = ":accumulate_weights-sample-cap" if getattr(
+                self, "accumulate_weights", False) and s.size < N else ""
+            V(f"pool-size!=requested:{name}{how}",
+              f"{s.size} vs requested {N}")
         if getattr(self, "population_acceptance", 1.0) is not None and \
                 self.population_acceptance < 1.0:
             mon.classes.add("pool:acceptance<1")
